@@ -244,18 +244,13 @@ def run(sc: Scenario):
         return _run(sc)
 
 
-def _run(sc: Scenario):
-    from vsym import scratch
-    from exactly_lib.util.file_utils.std import StdOutputFiles
-    mp = cli._main_program()
-    work = os.path.realpath(scratch.new_dir('c18f'))
-    root = os.path.join(work, 'h', 'case')
-    os.makedirs(root)
+def _subst(s: str, root: str) -> str:
+    return s.replace('{ROOTNAME}', os.path.basename(root)).replace('{ROOT}', root)
+
+
+def _write_tree(sc: Scenario, root: str):
     main_dir = os.path.join(root, os.path.dirname(sc.main))
     tree = sc.tree
-
-    def subst(s: str) -> str:
-        return s.replace('{ROOTNAME}', 'case').replace('{ROOT}', root)
 
     def write(rel, contents):
         p = os.path.join(root, rel)
@@ -265,7 +260,7 @@ def _run(sc: Scenario):
                 f.write(contents)
         else:
             with open(p, 'w', encoding='utf-8') as f:
-                f.write(subst(contents))
+                f.write(_subst(contents, root))
 
     for name, contents in cli.HOME_FILES.items():
         write(name, contents)
@@ -280,6 +275,20 @@ def _run(sc: Scenario):
         p = os.path.join(root, rel)
         os.makedirs(os.path.dirname(p), exist_ok=True)
         os.symlink(os.path.join(root, target) if tree.link_is_abs[rel] else target, p)
+
+
+def _run(sc: Scenario):
+    from vsym import scratch
+    from exactly_lib.util.file_utils.std import StdOutputFiles
+    mp = cli._main_program()
+    work = os.path.realpath(scratch.new_dir('c18f'))
+    root = os.path.join(work, 'h', 'case')
+    os.makedirs(root)
+    _write_tree(sc, root)
+
+    def subst(s: str) -> str:
+        return _subst(s, root)
+
     roots = []
 
     def resolver() -> str:
@@ -340,7 +349,40 @@ def shows_chain(r, sc: Scenario, chain=None) -> bool:
         j = i + 1
         while j < len(lines) and lines[j].strip() == '':
             j += 1
-        root_name = source.replace('{ROOTNAME}', 'case').replace('{ROOT}', r['root'])
-        if j >= len(lines) or lines[j] != '  ' + root_name.strip():
+        if j >= len(lines) or lines[j] != '  ' + _subst(source, r['root']).strip():
             return False
     return True
+
+
+def selftest() -> int:
+    """The trees are what they are meant to be: in every layout, every spelling of a directive, read the way the OS reads a
+    path (from the directory of the path under which the including file was reached), denotes the file meant; every way
+    of naming the test case file denotes it; a cycle of directives is a cycle of files."""
+    from vsym import scratch
+    n = 0
+    for layout in range(len(LAYOUTS)):
+        for spelling in range(len(SPELLINGS)):
+            for main_spelling in range(len(MAIN_SPELLINGS)):
+                sc = cycle(3, 1, layout, spelling, True, 0, main_spelling)
+                work = os.path.realpath(scratch.new_dir('c18fs'))
+                root = os.path.join(work, 'h', 'case')
+                os.makedirs(root)
+                try:
+                    _write_tree(sc, root)
+                    at = os.path.join(root, sc.cwd or '.', _subst(sc.main_arg, root))
+                    visited = []
+                    for file, line, source, referred_as in sc.chain:
+                        if os.path.realpath(at) != os.path.join(root, file) or os.path.basename(at) != referred_as:
+                            raise AssertionError('%s: %r is not %r' % (sc.description, at, file))
+                        with open(at) as f:
+                            text = f.read().split('\n')
+                        if text[line - 1] != _subst(source, root):
+                            raise AssertionError('%s: line %d of %r is %r' % (sc.description, line, file, text[line - 1]))
+                        visited.append(os.path.realpath(at))
+                        at = os.path.join(os.path.dirname(at), text[line - 1].split()[1])
+                        n += 1
+                    if os.path.realpath(at) != visited[1] or len(set(visited)) != 4:
+                        raise AssertionError('%s: not a cycle of 3 files after 1' % sc.description)
+                finally:
+                    scratch.remove(work)
+    return n
